@@ -25,7 +25,7 @@ CHECKS["C10"] = dict(level="other", design="4/C10",
    note="Trusted: CrossHair+z3; harness reference model (20 lines). Bounds: S=2 quick (ints); thorough adds S=3 for &,|,-,^,<= and a real-number family at S=2.")
 CHECKS["C15"] = dict(level="other", design="4/C15",
    text="Solver-decided: the arrival order of serials 0..n-1 is a symbolic permutation (all n! orders are paths), drain vectors and the flush/clear position are enumerated per job; after every step the emitted prefix, waiting_for and len equal the definition for Buffer and PrintBuffer (real print() into a list-backed writer). CircularBuffer(c): symbolic number of puts, symbolic clear position, one more put/clear, symbolic probe index vs. the tail of the put history.",
-   note="Trusted: CrossHair+z3; AssocDict stub for the buffers' internal dicts in symbolic runs; payload contents are tags (never inspected by the code). Bounds: n<=4,c<=4 quick; n<=5 complete + n=6 partial, c<=6 thorough.")
+   note="Trusted: CrossHair+z3; AssocDict stub for the buffers' internal dicts in symbolic runs; payload contents are tags (never inspected by the code). Bounds: n<=4,c<=4 quick; n<=5 complete + PrintBuffer n=6, c<=6 thorough.")
 CHECKS["C17"] = dict(level="other", design="4/C17",
    text="Solver-decided total-function check: for n<=N elements with unbounded symbolic non-negative integer scores (ties and zeros included; weak orders split into one job per sorting permutation) sorted_combinations yields every non-empty combination exactly once, index-ordered, in non-decreasing key order with key = sum; min_combinations_in_interval_iter_sorted with symbolic [lo, hi) equals the brute-force set of least-sum combinations in the interval, [] when none. heapq runs on tuples with symbolic keys.",
    note="Trusted: CrossHair+z3; itertools.combinations as brute-force reference. Bounds: N=3 quick / 4 thorough; key = sum of scores.")
